@@ -19,6 +19,7 @@ CONSTANTS DEPTH = %d
  VIAS = {%s}
  LOGO = %d
  NPRE = %d
+ CTALIAS = %s
  U <- DummyU
 VIEW ViewSt
 INVARIANT NamesFresh
@@ -36,15 +37,16 @@ def sub_universe(full, sel):
 def _job(args):
     hid, h, sel, logo, work = args[:5]
     npre = args[5] if len(args) > 5 else 0
+    alias = bool(args[6]) if len(args) > 6 else False
     if "U" not in _G:
         _G["U"] = M.universe()
-    return M.run_history(hid, h, sub_universe(_G["U"], sel), os.path.join(work, "img"), len(sel), logo, npre)
+    return M.run_history(hid, h, sub_universe(_G["U"], sel), os.path.join(work, "img"), len(sel), logo, npre, alias)
 
 
-def explore(work, name, depth, nimg, ops, sim=None, nslides=2, args=("none", "w", "h", "both"), vias=("stream", "path"), logo=0, npre=0):
+def explore(work, name, depth, nimg, ops, sim=None, nslides=2, args=("none", "w", "h", "both"), vias=("stream", "path"), logo=0, npre=0, alias=False):
     cfg = os.path.join(work, "MC_Media_%s.cfg" % name)
     q = lambda xs: ",".join('"%s"' % o for o in xs)  # noqa: E731
-    body = (CFG % (depth, nimg, q(ops), q(args), q(vias), logo, npre)).replace("NSLIDES = 2", "NSLIDES = %d" % nslides)
+    body = (CFG % (depth, nimg, q(ops), q(args), q(vias), logo, npre, "TRUE" if alias else "FALSE")).replace("NSLIDES = 2", "NSLIDES = %d" % nslides)
     if sim:
         body = body.replace("VIEW ViewSt\n", "")
     with open(cfg, "w") as f:
@@ -85,11 +87,15 @@ def main() -> int:
     # a deck that already holds ten pictures (image1 .. image10): the next images' sequence numbers are found among two-digit names
     MANY = dict(nslides=1, args=("none",), vias=("stream",), npre=10)
     ALLPNG = [i + 1 for i, sp in enumerate(_M._SPECS) if sp[0] == "PNG"]
+    # a deck another producer wrote: its two pictures (a PNG, a JPEG) are there already and the JPEG part is declared "image/jpg"
+    JPGS = [i + 1 for i, sp in enumerate(_M._SPECS) if sp[0] == "JPEG"]
+    AL = dict(nslides=1, args=("none",), vias=("stream",), npre=2, alias=True)
     if thorough:
         cfgs = [("a", 3, ALLI(4), ALL, None, {}), ("b", 2, ALLI(NGEN), ["addPicture", "reopen"], None, {}),
                 ("gc", 5, PNGS + [2], ["addPicture", "removeLayout", "reopen", "save"], None, GC),
                 ("samepath", 4, SAME, ["addPicture", "reopen"], None, SP),
                 ("many", 3, ALLPNG[:13], ["addPicture", "reopen", "save"], None, MANY),
+                ("alias", 3, [1] + JPGS, ["addPicture", "reopen", "save"], None, AL),
                 ("sim", 8, ALLI(NGEN), ALL + ["removeLayout"], "num=1500", dict(logo=1))]
     else:
         cfgs = [("a", 2, ALLI(3), ALL, None, {}), ("b", 1, ALLI(NGEN), ["addPicture", "insertPicture"], None, {}),
@@ -97,12 +103,13 @@ def main() -> int:
                 ("gc", 4, PNGS, ["addPicture", "removeLayout", "reopen"], None, GC),
                 ("samepath", 3, SAME, ["addPicture", "reopen"], None, SP),
                 ("many", 2, ALLPNG[:12], ["addPicture", "reopen"], None, MANY),
+                ("alias", 2, [1] + JPGS, ["addPicture", "reopen"], None, AL),
                 ("sim", 7, ALLI(NGEN), ALL + ["removeLayout"], "num=150", dict(logo=1))]
     jobs, per = [], {}
     states = trans = 0
     if replay:
         rp = json.load(open(replay))
-        jobs = [(rp["id"], rp["h"], tuple(rp["sel"]), rp.get("logo", 0), work, rp.get("npre", 0))]
+        jobs = [(rp["id"], rp["h"], tuple(rp["sel"]), rp.get("logo", 0), work, rp.get("npre", 0), rp.get("alias", False))]
     else:
         for name, depth, sel, ops, sim, kw in cfgs:
             paths, r = explore(work, name, depth, len(sel), ops, sim, **kw)
@@ -110,7 +117,7 @@ def main() -> int:
             trans += r.generated
             per[name] = {"paths": len(paths), "depth": depth, "images": len(sel), "ops": ops, "tlc_distinct": r.distinct, "simulate": sim,
                          "logo_on_layout": kw.get("logo", 0)}
-            jobs += [("%s:%d" % (name, i), p, tuple(sel), kw.get("logo", 0), work, kw.get("npre", 0)) for i, p in enumerate(paths)]
+            jobs += [("%s:%d" % (name, i), p, tuple(sel), kw.get("logo", 0), work, kw.get("npre", 0), kw.get("alias", False)) for i, p in enumerate(paths)]
     traces = E.pmap(_job, jobs, procs=16, chunk=4)
     fullU = M.universe()
 
@@ -145,7 +152,7 @@ def main() -> int:
             for k, v in s.items():
                 tot[k] = tot.get(k, 0) + v
     byid = {t["id"]: (t, j[2], j[3]) for j, t in zip(jobs, traces)}
-    byjob = {j[0]: (j[5] if len(j) > 5 else 0) for j in jobs}
+    byjob = {j[0]: ((j[5] if len(j) > 5 else 0), (j[6] if len(j) > 6 else False)) for j in jobs}
     for v in bad:
         t, nimg, logo = byid[v["id"]]
         U = sub_universe(fullU, nimg)
@@ -162,7 +169,7 @@ def main() -> int:
                             (m["ext"], m["ctype"]) != ({"PNG": "png", "JPEG": "jpg", "GIF": "gif", "BMP": "bmp", "TIFF": "tiff", "EMF": "emf", "WMF": "wmf"}.get(U[m["img"] - 1]["fmt"]),
                                                        {"PNG": "image/png", "JPEG": "image/jpeg", "GIF": "image/gif", "BMP": "image/bmp", "TIFF": "image/tiff", "EMF": "image/x-emf", "WMF": "image/x-wmf"}.get(U[m["img"] - 1]["fmt"]))})
             site = ("stored:" + ",".join(wrong)) if "ExtAndTypeOfActualFormat" in b["failing"] and wrong else (a["op"] + cls)
-            rep.reject("%s@%s" % (clause, site), {"module": "Media", "id": t["id"], "h": t["h"], "sel": list(nimg), "logo": logo, "npre": byjob[t["id"]], "failing": b,
+            rep.reject("%s@%s" % (clause, site), {"module": "Media", "id": t["id"], "h": t["h"], "sel": list(nimg), "logo": logo, "npre": byjob[t["id"]][0], "alias": byjob[t["id"]][1], "failing": b,
                                                   "observed": t_obs, "errs": [s.get("err") for s in t["steps"]]},
                        "history %s" % json.dumps([{k: x[k] for k in ("op", "slide", "img", "args", "via")} for x in t["h"]])[:500])
     ops = {}
